@@ -190,6 +190,9 @@ def plan(tier, seed):
         cases.append(dict(key="parallel/" + "/".join(sp), kind="parallel", spec=sp, seed=seed, tier=tier, cost=10))
     for name in ("laplace-scalar", "mass-vector", "elastic-vector", "linear-load", "mixed-up", "hess-scalar", "planestrain-vector"):
         cases.append(dict(key=f"form/{name}", kind="form", name=name, seed=seed, tier=tier, cost=5))
+    # call histories on ONE IntegralForm object whose integrated values are held, re-used as buffers and modified by the caller
+    for name in ("elastic-vector", "linear-load", "mixed-up", "planestrain-vector"):
+        cases.append(dict(key=f"integralform-history/{name}", kind="ifhist", name=name, seed=seed, tier=tier, cost=4))
     for model in ("line1-scalar-bilinear", "line2-scalar-bilinear", "line1-scalar-linear", "line2-vector2-linear", "line1-sym-bilinear") + (("quad1-scalar-bilinear",) if tier == "thorough" else ()):
         cases.append(dict(key=f"threads/{model}", kind="threads", model=model, seed=seed, tier=tier, cost=60))
     # test and trial fields on DIFFERENT regions over the same cells (quadratic vs linear shape functions, same quadrature)
@@ -822,5 +825,75 @@ def run_threads(case):
     return res
 
 
+def run_ifhist(case):
+    """one long-lived IntegralForm F (and a second form G of the same layout, other integrand): every sequence (<= 3) over
+    I: vals = F.integrate()            (the caller holds vals)          O: F.integrate(out=vals)  (re-used as output buffer)
+    G: G.integrate(out=vals)           (the buffer re-used by another form)  X: the caller scales the held arrays in place
+    A: F.assemble()                    V: F.assemble(values=vals)       B: F.assemble(block=False) summed by hand
+    every A / B must be the defining sum of F's own integrand (reference: a fresh form), every V the assembly of whatever
+    the held arrays contain at that moment (reference: fresh form assembling a copy)"""
+    import felupe as fem
+    from scipy.sparse import bmat
+
+    c = Ctx(case["key"])
+    cont, wf, arrform, bilinear, symmable = form_models(case["name"], case["seed"])
+    F = arrform()
+    base = arrform().assemble().toarray()
+    # G: same layout, integrands scaled per block (another form writing into the same buffers)
+    Gf = arrform()
+    for k_, fm_ in enumerate(Gf.forms):
+        if fm_.fun is not None:
+            fm_.fun = fm_.fun * (1.7 + k_)
+    ops = "IOGXAVB"
+    nseq = 0
+    for depth in (1, 2, 3):
+        for seq in itertools.product(ops, repeat=depth):
+            if seq[-1] not in "AVB":
+                continue
+            F = arrform()
+            held = None
+            for step, op in enumerate(seq):
+                lab = "history=" + "".join(seq[: step + 1])
+                if op == "I":
+                    held = F.integrate()
+                elif op in "OGXV" and held is None:
+                    break  # (needs held values)
+                elif op == "O":
+                    held = F.integrate(out=held)
+                elif op == "G":
+                    Gf.integrate(out=held)
+                elif op == "X":
+                    for a_ in held:
+                        if a_ is not None:
+                            a_ *= 2.0
+                elif op == "A":
+                    got = F.assemble().toarray()
+                    c.trans += 1
+                    c.cmp(lab, "assemble() of an integral form whose integrated values were handed out before (I integrate, O integrate(out=held), G another form integrates into the held buffers, X caller scales them): the defining sum of its own integrand", got, base, 1e-13)
+                elif op == "B":
+                    blocks = F.assemble(block=False)
+                    c.trans += 1
+                    if len(blocks) != len(F.forms):
+                        c.bad(lab + "/count", "assemble(block=False) returns one entry per form", len(blocks), len(F.forms))
+                    elif len(blocks) == 1:
+                        c.cmp(lab, "assemble(block=False) of a form with a history", blocks[0].toarray(), base, 1e-13)
+                elif op == "V":
+                    keep = [None if a_ is None else a_.copy() for a_ in held]
+                    got = F.assemble(values=held).toarray()
+                    want = arrform().assemble(values=keep).toarray()
+                    c.trans += 2
+                    c.cmp(lab, "assemble(values=held) assembles the held arrays as they are", got, want, 1e-13)
+                    for a_, k__ in zip(held, keep):
+                        if a_ is not None and not np.array_equal(a_, k__):
+                            c.bad(lab + "/values-modified", "assemble(values=...) modified the caller's arrays", "modified", "unchanged")
+            else:
+                nseq += 1
+    c.traces += nseq
+    c.outcomes.add(f"integralform-histories={nseq}")
+    return c.result(dict(case=case["key"], shape=list(base.shape), histories=nseq))
+
+
 def run(case):
+    if case["kind"] == "ifhist":
+        return run_ifhist(case)
     return {"linear": run_linear, "bilinear": run_bilinear, "parallel": run_parallel, "form": run_form, "threads": run_threads, "reuse": run_reuse, "form2": run_form2}[case["kind"]](case)
